@@ -467,6 +467,24 @@ func initJSON() {
 		}
 		return tuple{out, iface{}}
 	})
+	reg("encoding/json.Unmarshal", func(fr *frame, args []value) value {
+		data := args[0].([]value)
+		bs := make([]byte, len(data))
+		for i, b := range data {
+			c, ok := b.(byte)
+			if !ok {
+				unsup("json.Unmarshal of symbolic bytes")
+			}
+			bs[i] = c
+		}
+		var x any
+		if err := json.Unmarshal(bs, &x); err != nil {
+			return mkError(fr, err.Error())
+		}
+		target := args[1].(iface).v.(*value)
+		*target = toInterp(x)
+		return iface{}
+	})
 	reg("encoding/json.Marshal", func(fr *frame, args []value) value {
 		b, err := json.Marshal(toHost(args[0]))
 		if err != nil {
